@@ -42,7 +42,7 @@ TRUSTED = [
 ]
 ASSUMPTIONS = [
     "a result is a JSON object (every MCP result is one); a non-object result is delivered by stdio (parse_message falls back to the response class) and rejected by the HTTP and SSE transports (JSONRPCMessage.model_validate) - outside the quantifier",
-    "conversations are strictly sequential, one outstanding request at a time (concurrent callers: open known finding of C18)",
+    "conversations are strictly sequential, one outstanding request at a time (concurrent callers: open known finding of C18); a caller that mutates a params object it handed to a call that gave up (the request may still be queued in a transport that sends serially) is outside: the carriers serialise at different moments",
     "HTTP with JSON bodies expresses only exchanges without notifications (one message per body)",
 ]
 
@@ -400,9 +400,11 @@ class Conversations(Suite):
         r = self._oracle_core(case, view)
         if r is None:
             r = self._oracle_twins(case, view, uns)
-        if r is not None and uns:
-            excs = "+".join(sorted({v[1] for v in uns.values()}))
-            r = (f"after-unsendable:{r[0]}", "after a message that could not be serialised (" + excs + "): " + r[1], r[2])
+        if r is not None and any(v[1] == "StrRaises" for v in uns.values()):
+            # one class, whatever form the loss takes afterwards (missing messages, shifted ids after a re-entry …)
+            pair = r[0].split("/", 1)[1] if "/" in r[0] else r[0]
+            r = (f"after-unprintable-exception/{pair}",
+                 "after a message whose serialisation raised an exception whose str() raises: " + r[1], r[2])
         return r
 
     def _oracle_twins(self, case, view, uns):
